@@ -93,6 +93,12 @@ CLAIMED = {
     "C40": ("fault_enumeration",
             "Two real chains running the callbacks test application (modules/apps/callbacks/testing/simapp) joined by an ICS-20 v1 channel and an IBC v2 client pair; transfers carry src_callback / dest_callback memos with user gas limits absent, zero, below, at, above the chain maximum and 2^64-1; the scripted contract per callback type succeeds, errors, panics, burns all gas, or burns all gas and swallows the panic, optionally after writing state (a bank send to a sink account); the relayer's transaction gas limit is drawn from a ladder placed around the committed callback limit using a dry run of the same message (cannot pay the message, below / at / above the committed limit, exactly at it after an aborted attempt). In addition the real v1 and v2 middleware are driven directly over stub neighbours with chain maxima 1..3,000,000 where the remaining gas is known exactly and the async write-ack callback is reachable. Oracles: callback gas <= min(remaining, min(user limit, chain max)); a failing source ack/timeout callback leaves the packet completed with exactly the ICS-20 bank effect and nothing the callback wrote; out of gas on a meter below the committed limit aborts the whole transaction, nothing persists, and an amply funded retry commits; a failing destination callback gives an error acknowledgement with no bank/transfer state change. The coverage of the (callback type x contract behaviour x gas relation) grid is reported.",
             "deterministic simulation with scripted contract faults and a relayer gas ladder around the committed limit; gas-bound + bank/store-diff oracles", "8 C40"),
+    "C43": ("exploration",
+            "Token worlds of 3 real chains (line and mesh) with the real rate-limit -> packet-forward -> transfer stack, where transfers carry forward memos of 1-3 hops (next as object or JSON string; hops that go back over the arrival channel; timeouts none / 1-30 s / 1 h / 40 h; retries none or 0-2; final receiver valid / invalid / blocked; ~14% malformed or unroutable hops) for native coins, vouchers, unwinding and non-unwinding hops. The legs the middleware sends from inside a receive or timeout transaction are recognised from its send_packet events and become ordinary packets of the simulator, so the relay faults of the token worlds (duplicates, replays, races, early timeouts, delays) apply to every leg. Oracles: per-block bank diff against the ICS-20 model extended by hop predictions (arrival credit and departure debit of the intermediate account net zero; exact inverse when a forward fails for good), channel equations and tracked escrow on every chain; all-or-nothing judged when the origin leg settles and after the drain (delivered-and-refunded, acknowledged-without-delivery, neither, delivered-twice, never-terminated); the intermediate receive account holds nothing after every block; a failed forward leaves escrow, tracked escrow and voucher supply of each intermediate chain where they started; the denomination, amount and route of the next leg equal the model's; no more re-sends than the memo's retries.",
+            "deterministic simulation: multi-hop forwards under relay faults and tight timeouts, ICS-20 + hop reference model (bank diff every block) and all-or-nothing judgement after a bounded drain", "8 C43"),
+    "C46": ("fault_enumeration",
+            "Two real chains with a 30 s gov voting period; up to 8 further tendermint clients per chain created by different accounts (short trusting periods so that some expire), a connection, a v1 channel and v2 counterparties. The run enumerates privileged and client-scoped messages — MsgRecoverClient, MsgIBCSoftwareUpgrade, MsgUpdateParams of 02-client / 03-connection / transfer / ICA host / ICA controller, rate-limit add / update / remove / reset, v2 MsgRegisterCounterparty, MsgUpdateClientConfig, MsgDeleteClientCreator, MsgCreateClient, MsgUpdateClient, v2 send / receive / acknowledgement / timeout with real proofs, connection and channel opens and v1 packets over a client — with every signer class (authority through a REAL proposal + vote + voting period; a message naming the authority or the creator but signed by someone else; a proposal that does not pass; creator; deleted creator; another client's creator; listed and unlisted relayers; strangers) at the configurations the run reaches (counterparty set or not, creator deleted, relayer allow list empty / non-empty, allowed-clients list with / without the client type), refused attempts followed by the same message from a permitted signer, replays. Reference table (message kind, signer class, configuration) -> allowed: success => allowed; permitted combinations with certainly valid arguments must succeed; any refusal leaves the complete ibc, upgrade, ratelimiting, transfer, icahost and icacontroller stores unchanged. Coverage of the grid is reported (65 required cells). Not decided: wasm code storage/removal/migration (08-wasm is not wired into testing/simapp) and MsgUpgradeClient under a relayer allow list (needs a real chain upgrade).",
+            "deterministic simulation: privileged-message x signer-class x configuration enumeration through real governance, authorisation table + full store-diff oracle", "8 C46"),
     "C30": ("exploration",
             "2-3 real chains in a line or mesh of ICS-20 channels (v1, v2-over-alias, v2 clients) with the real rate-limit -> packet-forward -> transfer stack; users move natives (incl. '/'-segmented names) and vouchers over several hops and back under dropped/duplicated/replayed/reordered/raced relays, invalid and blocked receivers, tight timeouts, restarts. After EVERY block: real change of every bank balance and supply == sum of the ICS-20 reference model's predictions for the committed transactions; per channel end and escrowed denomination: escrow (net of donations) == voucher supply on the peer + in flight; native supplies constant.",
             "deterministic simulation: multi-chain token traffic under relay faults, ICS-20 reference model + cross-chain conservation equations on real bank state", "8 C30"),
